@@ -435,8 +435,15 @@ def c18_correspond(run, rng, tier):
             got = [l for l in re.split(r'(?:>>> |\.\.\. )+', body.replace('\nBye!\n', '\n').replace('Bye!\n', '')) if l.strip() != '']
             got = [g.rstrip('\n') for g in got]
             if got != expected or rc != 0 or not out.endswith('Bye!\n'):
-                failures.append({'script': text[:400], 'chunking': cname, 'expected_results': expected[:10], 'real_results': got[:10], 'exit': rc,
-                                 'problem': 'REPL did not evaluate every form exactly once in order'})
+                i = next((k for k in range(min(len(got), len(expected))) if got[k] != expected[k]), min(len(got), len(expected)))
+                f = {'script': text[:400] + (' …' if len(text) > 400 else ''), 'script_lines': text.count('\n'), 'chunking': cname, 'first_difference_at_form': i,
+                     'expected_results': expected[max(0, i - 2):i + 3], 'real_results': got[max(0, i - 2):i + 3], 'exit': rc,
+                     'problem': 'REPL did not evaluate every form exactly once in order'}
+                if i < len(got) and 'stackoverflow' in ' '.join(got[i:i + 3]) and text.count('\n') > 900:
+                    # listed finding F17b: every LINE of a session costs one recursion level of the REPL
+                    f['finding'] = 'F17b-repl-depth-grows'
+                    findings_seen.add('F17b-repl-depth-grows')
+                failures.append(f)
     # ---- known-finding witnesses (reported, not alarms)
     two, rc2, _ = run_repl_process([b'1 2\n'])
     if '2' not in two.replace(LOADED, '').replace('>>> ', ''):
@@ -824,28 +831,35 @@ def heap_oracle(sess, resp, growth_check=True):
     """checks on the real responses of one history: invariants, exactness after a collection, size bound"""
     from fractions import Fraction
     failures = []
-    max_live = 0
+    max_live = 0          # an UPPER bound of the largest live set so far: reachable cells at the last snapshot + allocations since
+    since = 0             # allocating operations since the last snapshot
+    last_reach = 0
     last_collect = False
     for j, (req, r) in enumerate(zip(sess, resp)):
         if r.startswith('PANIC') or r.startswith('DRIVER-DIED'):
             failures.append({'at': j, 'request': req, 'problem': f'the heap code crashed: {r[:200]}'})
             break
+        w = req.split()
+        if len(w) > 1 and w[0] == 'h' and w[1] in ('num', 'chr', 'cons', 'sym', 'symprint', 'gensym', 'fn', 'trap', 'meta'):
+            since += 1
+            max_live = max(max_live, last_reach + since)
         if req == 'h inv' and r != 'ok':
             failures.append({'at': j, 'request': req, 'problem': f'heap invariant broken: {r}'})
         if req == 'h snap':
             problems, used, reach, n = snapshot_reachability(r)
             for p in problems:
                 failures.append({'at': j, 'request': req, 'problem': p})
+            last_reach, since = reach, 0
+            max_live = max(max_live, reach)
             if last_collect:
-                max_live = max(max_live, reach)
                 if used != reach:
                     failures.append({'at': j, 'request': req, 'problem': f'immediately after a collection {used} cells are in use but {reach} are reachable (garbage retained or live data lost)'})
                 # surplus free space beyond the configured ratio is released
                 free = n - used
                 if free > (used * 3) // 4 and free != used // 10 + 1:
                     failures.append({'at': j, 'request': req, 'problem': f'after a collection used={used} free={free}: more than MAXIMUM_FREE_RATIO and not trimmed to MINIMUM_FREE_RATIO'})
-            if growth_check and n > max(256, 2 * max(max_live, reach) + 2):
-                failures.append({'at': j, 'request': req, 'problem': f'heap has {n} cells although at most {max(max_live, reach)} were ever live at a collection (growth bound 2L+1 / initial 256)'})
+            if growth_check and n > max(256, 2 * max_live + 2):
+                failures.append({'at': j, 'request': req, 'problem': f'heap has {n} cells although at most {max_live} cells were ever live (growth bound 2L+1 / initial 256)'})
         last_collect = req == 'h collect' or (last_collect and req in ('h snap', 'h inv'))
     return failures
 
@@ -860,7 +874,7 @@ def shadow_oracle(sess, resp):
         if len(w) < 2 or w[0] != 'h':
             continue
         op = w[1]
-        if op in ('num', 'chr', 'cons', 'sym', 'gensym', 'trap', 'fn', 'meta', 'car', 'cdr', 'getglobal'):
+        if op in ('num', 'chr', 'cons', 'sym', 'symprint', 'gensym', 'trap', 'fn', 'meta', 'car', 'cdr', 'getglobal'):
             shadow.pop(w[2], None)
         elif op == 'clone':
             shadow.pop(w[2], None)
@@ -894,7 +908,7 @@ def c01_correspond(run, rng, tier, symbol_heavy=False, which='C01'):
     sessions, counts = heap_histories(rng, n_hist, (20, 400) if tier == 'quick' else (20, 2500), symbol_heavy_every=1 if symbol_heavy else 3)
     if which == 'C03':
         # long histories with a bounded live set: sawtooth allocation
-        for size in ([1000, 5000] if tier == 'quick' else [1000, 20000, 100000]):
+        for size in ([1000, 5000] if tier == "quick" else [1000, 20000, 40000]):
             lines = ['new empty', 'sched natural', 'poison 1']
             for i in range(size):
                 lines.append(f'h cons {i % 17} {(i + 3) % 17 if i > 20 else "_"} _')
@@ -906,7 +920,7 @@ def c01_correspond(run, rng, tier, symbol_heavy=False, which='C01'):
         # cells; the heap is looked at after EVERY operation, so that its size is seen right after every growth
         for garbage_every in (3, 7, 12, 30):
             lines = ['new empty', 'sched natural', 'poison 1', 'h num 1 5']
-            for i in range(420 if tier == 'quick' else 3000):
+            for i in range(420 if tier == "quick" else 1200):
                 lines.append('h cons 0 1 0' if i else 'h cons 0 1 _')
                 if i % garbage_every == 0:
                     lines.append(f'h num 2 {i}')
@@ -1240,6 +1254,9 @@ TAIL_LOOPS = {
     'foldl': ("", "(foldl add 0 (range {n}))", lambda n: str(n * (n - 1) // 2)),
     'reverse-map': ("", "(car (reverse (map (lambda (x) (add x 1)) (range {n}))))", lambda n: str(n) if n > 0 else '()'),
     'zip': ("", "(length (zip (range {n}) (range {n})))", lambda n: str(n)),
+    # tail calls that cross a module boundary at every step: a driver in a loaded module calls back a function of `default`
+    'cross-module': ("(load-all \"(defun pong (n k) \\\"\\\" (if (= n 0) 'done (k (substract n 1) pong)))\" \"mp\")\n(defun ping (n k) \"\" (if (= n 0) 'done (k (substract n 1) ping)))",
+                     "(ping {n} pong)", lambda n: 'done'),
     # a macro whose result is a call of itself: re-expansion is the fix-point loop of macroexpand, constant depth for every n
     'macro-re-expansion': ("(defmacro count-down (n) \"\" (if (= n 0) (list 'quote 'done) (list 'count-down (substract n 1))))", "(eval '(count-down {n}))", lambda n: 'done'),
 }
@@ -1374,7 +1391,10 @@ def c15_history(rng):
             elif k < 0.6: inner.append("(get-current-module)")
             elif k < 0.7 and depth < 3:
                 t = load_text(depth + 1).replace('\\', '\\\\').replace('"', '\\"')
-                inner.append(f'(load-all "{t}" "inner{depth}")')
+                # the second argument names the source: a string makes (and enters) a module of that name, a symbol such as
+                # stdin evaluates the text in the module that is current
+                inner.append(f'(load-all "{t}" "inner{depth}")' if rng.random() < 0.7 else f"(load-all \"{t}\" 'stdin)")
+                inner.append("(output (print (get-current-module)))")
             else: inner.append(f"(add 1 {rng.randint(0, 5)})")
         # a failure at a chosen form, by a chosen cause — or none
         cause = rng.choice([None, None, 'unbound', 'signal', 'abort', 'arity', 'read-error', 'incomplete', 'type'])
@@ -1398,32 +1418,55 @@ def c15_history(rng):
     return '\n'.join(forms)
 
 def c15_module_sequence(rng):
-    """define / undefine / export sequences inside a loaded module (fresh module, with or without an export list);
-    every operation prints its outcome; returns (program, expected output)"""
+    """define / undefine / export / lookup sequences inside a loaded module (fresh module, with or without an export list),
+    with nested loads: a string source makes and enters a fresh module and comes back, a symbol source (stdin) evaluates the
+    text in the module that is current; every operation prints its outcome; returns (program, expected output)"""
     names = ['p', 'q', 'r']
-    defined, lines, forms = {}, [], []
-    for _ in range(rng.randint(3, 12)):
-        k = rng.random()
-        n = rng.choice(names)
-        if k < 0.2:
-            forms.append(f"(export (quote ({' '.join(rng.sample(names, rng.randint(1, 2)))})))")
-        elif k < 0.7:
-            v = rng.randint(0, 99)
-            forms.append(f"(output (print (eval (trap (define (quote {n}) {v} (list)) (. *trapped-signal* (quote kind))))))")
-            if n in defined:
-                lines.append('already-defined')
-            else:
-                defined[n] = v
+    counter = [0]
+    def esc(t):
+        return t.replace('\\', '\\\\').replace('"', '\\"')
+    def body(module, defined, depth):
+        forms, lines = [], []
+        for _ in range(rng.randint(3, 10) if depth == 0 else rng.randint(1, 4)):
+            k = rng.random()
+            n = rng.choice(names)
+            if k < 0.15:
+                forms.append(f"(export (quote ({' '.join(rng.sample(names, rng.randint(1, 2)))})))")
+            elif k < 0.55:
+                v = rng.randint(0, 99)
+                forms.append(f"(output (print (eval (trap (define (quote {n}) {v} (list)) (. *trapped-signal* (quote kind))))))")
+                if n in defined:
+                    lines.append('already-defined')
+                else:
+                    defined[n] = v
+                    lines.append('ok')
+            elif k < 0.68:
+                forms.append(f"(output (print (undefine (quote {n}))))")
+                defined.pop(n, None)
                 lines.append('ok')
-        elif k < 0.85:
-            forms.append(f"(output (print (undefine (quote {n}))))")
-            defined.pop(n, None)
-            lines.append('ok')
-        else:
-            forms.append(f"(output (print (eval (trap {n} (quote unbound)))))")
-            lines.append(str(defined[n]) if n in defined else 'unbound')
-    text = ' '.join(forms).replace('\\', '\\\\').replace('"', '\\"')
-    return f'(load-all "{text}" "m{rng.randint(0, 2)}")\n(get-current-module)', ''.join(l + '\n' for l in lines)
+            elif k < 0.8 or depth >= 2:
+                forms.append(f"(output (print (get-current-module)))")
+                lines.append(module)
+            elif k < 0.9:
+                # a symbol source: the same module goes on
+                f2, l2 = body(module, defined, depth + 1)
+                forms.append(f"(load-all \"{esc(' '.join(f2))}\" (quote stdin))")
+                lines += l2
+                forms.append("(output (print (get-current-module)))")
+                lines.append(module)
+            else:
+                # a string source: a fresh module, then back
+                counter[0] += 1
+                sub = f'sub{counter[0]}'
+                f2, l2 = body(sub, {}, depth + 1)
+                forms.append(f"(load-all \"{esc(' '.join(f2))}\" \"{sub}\")")
+                lines += l2
+                forms.append("(output (print (get-current-module)))")
+                lines.append(module)
+        return forms, lines
+    m = f'm{rng.randint(0, 2)}'
+    forms, lines = body(m, {}, 0)
+    return f'(load-all "{esc(" ".join(forms))}" "{m}")\n(get-current-module)', ''.join(l + '\n' for l in lines)
 
 def c15_correspond(run, rng, tier):
     n = 600 if tier == 'quick' else 10000
@@ -1617,7 +1660,7 @@ def c11_replay(run, content):
                                                                                     {'finding': 'F25-error-position-of-newline'} if p.startswith('error position') and ref.get('msg', '').startswith("'\n' is not") else {})})
     return {'evaluations': len(fs), 'distinct_nontrivial': max(2, len(fs)), 'samples': [f['text'] for f in fs[:3]] or ['none'], 'disagreements': compare(sessions, real, model), 'oracle_failures': out, 'rule': 'replay'}
 
-spec('C11', correspond=c11_correspond, replay=c11_replay, modules=['C11', 'C11b'],
+spec('C11', correspond=c11_correspond, replay=c11_replay, modules=['C11', 'C11b', 'C11c'],
      search=lambda run, rng, d: c11_correspond(run, random.Random(rng.random()), 'quick')['oracle_failures'],
      trusted=['char::is_whitespace = the Unicode White_Space table (compared for every scalar value on every run)', 'the reference reader (Python) as the statement of the grammar', 'the correspondence check'],
      assumptions=['a character literal is % followed by exactly one code point or one of the five escapes (after the fix that removed the grapheme counter)',
@@ -1660,7 +1703,12 @@ def c09_correspond(run, rng, tier):
         res, tr = parse_eval(line)
         if res is None:
             return None
-        return [(k, canon('=' + hexs(p))) for (k, p, _) in res], re.sub(r'0x[0-9a-f]+', '0x?', tr.get('out') or '')
+        def mask(p):
+            # address text may also be spelled out as character data, when the program prints a function and keeps the text
+            # as a list: (cons %0 (cons %x (cons %5 …; everything from there on is not compared
+            p = re.sub(r'0x[0-9a-f]+', '0x?', p)
+            return re.sub(r'%0 \(cons %x.*', '%0 (cons %x …', p, flags=re.S)
+        return [(k, mask(p)) for (k, p, _) in res], re.sub(r'0x[0-9a-f]+', '0x?', tr.get('out') or '')
     for x, r in zip(forms, real):
         if len(r) < 6:
             dist['timeout-or-died'] += 1
@@ -1785,7 +1833,7 @@ def c06_correspond(run, rng, tier):
         failures = [x for x in isolated if not (x['expression'] in seen or seen.add(x['expression']))] + failures
     for s, r in zip(sessions, real):
         if r and r[-1].startswith('LEAK'):
-            failures.append({'expression': unhex(s[2].split(' ')[1]).decode()[:400], 'problem': 'handle audit / heap invariants after the run: ' + r[-1][:200]})
+            failures.append({'expression': unhex(s[2].split(' ')[1]).decode(), 'problem': 'handle audit / heap invariants after the run: ' + r[-1][:200]})
     # deep structures through the two native recursions that have no depth counter (known finding F14): run in a driver process
     # of their own (default 8 MiB main-thread stack) so that the death of the process is contained
     findings_seen = set()
@@ -2072,7 +2120,11 @@ def c20_correspond(run, rng, tier):
             if outs.get(mode) != direct:
                 f = {'expression': p, 'mode': mode, 'direct_eval': str(direct)[:300], 'debug_eval': str(outs.get(mode))[:300],
                      'problem': 'the stepping evaluator and the evaluator disagree on value / signal / output'}
-                if p == "((lambda (eval) (eval 3)) car)":
+                norm = lambda o: (o[0], (o[1] or '').replace('source with-current-module', 'source eval'), o[2]) if o else o
+                if norm(outs.get(mode)) == norm(direct):
+                    f['finding'] = 'F22-debugger-on-ill-formed-programs'
+                    findings_seen.add('F22-debugger-on-ill-formed-programs')
+                elif p == "((lambda (eval) (eval 3)) car)":
                     f['finding'] = 'F32-debugger-local-variable-named-eval'
                     findings_seen.add('F32-debugger-local-variable-named-eval')
                 elif p in ("((lambda () ()))", "((lambda (x) ()) 1)"):
